@@ -566,4 +566,99 @@ theorem extractG_single (c : Cfg) (rawEsc : Bool) (s : List Char) : extractG c [
     | nil => rfl
     | cons x xs => simpa [scanL] using scanG_eq_scan_aux c rawEsc xs.length xs (Nat.le_refl _) x []
 
+/-! ### reading a raw string -/
+
+theorem splitAt_append (q : Char) (v rest : List Char) (h : ∀ x ∈ v, x ≠ q) :
+    splitAt q (v ++ q :: rest) = some (v, rest) := by
+  induction v with
+  | nil => simp [splitAt]
+  | cons x v ih =>
+    have hx : x ≠ q := h x List.mem_cons_self
+    simp [splitAt, hx, ih (fun y hy => h y (List.mem_cons_of_mem _ hy))]
+
+theorem scanG_raw_plain (c : Cfg) (d : List Char) (rawEsc : Bool) (cur p : Char) (r acc : List Char)
+    (h1 : escCondG c d true rawEsc cur p = false) (h2 : d.isPrefixOf (cur :: p :: r) = false) :
+    scanG c d true rawEsc cur (p :: r) acc = scanG c d true rawEsc p r (acc ++ [cur]) := by
+  cases r <;> simp [scanG, h1, h2]
+
+theorem scanG_raw_close (c : Cfg) (rawEsc : Bool) (p : Char) (r acc : List Char)
+    (h1 : escCondG c [c.q] true rawEsc c.q p = false) :
+    scanG c [c.q] true rawEsc c.q (p :: r) acc = .ok acc (p :: r) := by
+  cases r <;> simp [scanG, h1, List.isPrefixOf]
+
+/-- what a raw-string scan needs at the closing delimiter -/
+structure RawClose (c : Cfg) (rawEsc : Bool) (rest : List Char) : Prop where
+  q_ne_bs : c.q ≠ '\\'
+  head : rest.head? ≠ some c.q
+  close : rawEsc = true → c.isQuote c.q = true ∨ c.isEsc c.q = false
+
+theorem scanG_raw_aux (c : Cfg) (rawEsc : Bool) (rest : List Char) (hc : RawClose c rawEsc rest) :
+    ∀ (v : List Char), (∀ x ∈ v, x ≠ c.q ∧ (rawEsc = true → c.isEsc x = false)) →
+      ∀ (t : Char) (T acc : List Char), v ++ c.q :: rest = t :: T →
+        scanG c [c.q] true rawEsc t T acc = .ok (acc ++ v) rest := by
+  intro v
+  induction v with
+  | nil =>
+    intro _ t T acc hT
+    simp at hT
+    obtain ⟨rfl, rfl⟩ := hT
+    cases rest with
+    | nil =>
+      have : escCondEnd c c.q = false := by simp [escCondEnd, hc.q_ne_bs]
+      simp [scanG, this]
+    | cons p r =>
+      have hp : p ≠ c.q := by simpa using hc.head
+      have hcond : escCondG c [c.q] true rawEsc c.q p = false := by
+        cases hr : rawEsc with
+        | false => simp [escCondG]
+        | true =>
+          rcases hc.close hr with h | h
+          · have : (c.q == p) = false := by simpa using (fun e => hp e.symm)
+            simp [escCondG, h, this]
+          · simp [escCondG, h]
+      simpa using scanG_raw_close c rawEsc p r acc hcond
+  | cons x v ih =>
+    intro hv t T acc hT
+    simp at hT
+    obtain ⟨rfl, rfl⟩ := hT
+    obtain ⟨hxq, hxe⟩ := hv x List.mem_cons_self
+    have hv' : ∀ y ∈ v, y ≠ c.q ∧ (rawEsc = true → c.isEsc y = false) := fun y hy => hv y (List.mem_cons_of_mem _ hy)
+    obtain ⟨t2, T2, hT2⟩ : ∃ t2 T2, v ++ c.q :: rest = t2 :: T2 := by
+      cases hS : v ++ c.q :: rest with
+      | nil => simp at hS
+      | cons a b => exact ⟨a, b, rfl⟩
+    have hcond : escCondG c [c.q] true rawEsc x t2 = false := by
+      cases hr : rawEsc with
+      | false => simp [escCondG]
+      | true => simp [escCondG, hxe hr]
+    have hpre : ([c.q].isPrefixOf (x :: t2 :: T2)) = false := by
+      simp [List.isPrefixOf]
+      exact fun e => hxq e.symm
+    rw [hT2, scanG_raw_plain c [c.q] rawEsc x t2 T2 acc hcond hpre]
+    have := ih hv' t2 T2 (acc ++ [x]) hT2
+    simpa using this
+
+theorem extractG_raw (c : Cfg) (rawEsc : Bool) (v rest : List Char) (hc : RawClose c rawEsc rest)
+    (hv : ∀ x ∈ v, x ≠ c.q ∧ (rawEsc = true → c.isEsc x = false)) :
+    extractG c [c.q] true rawEsc (v ++ c.q :: rest) = .ok v rest := by
+  unfold extractG
+  simp only [List.length_singleton, if_true]
+  cases hf : fastPath c (v ++ c.q :: rest) with
+  | some tr =>
+    obtain ⟨t, r⟩ := tr
+    unfold fastPath at hf
+    rw [splitAt_append c.q v rest (fun x hx => (hv x hx).1)] at hf
+    simp only at hf
+    split at hf
+    · simp at hf
+      simp [hf.1, hf.2]
+    · simp at hf
+  | none =>
+    obtain ⟨t2, T2, hT2⟩ : ∃ t2 T2, v ++ c.q :: rest = t2 :: T2 := by
+      cases hS : v ++ c.q :: rest with
+      | nil => simp at hS
+      | cons a b => exact ⟨a, b, rfl⟩
+    rw [hT2]
+    simpa using scanG_raw_aux c rawEsc rest hc v hv t2 T2 [] hT2
+
 end SqlglotModel.Str
